@@ -4,6 +4,7 @@ package c06
 import (
 	"encoding/json"
 	"fmt"
+	"reflect"
 	"strings"
 
 	"pault.ag/go/debian/dependency"
@@ -126,8 +127,19 @@ func checkSet(scen string, in SetIn) *mc.Violation {
 
 // alternative shapes: 0 substvar, 1 unrestricted, 2 [x], 3 [!x], 4 [y], 5 [x y], 6-9 with architecture qualifiers
 type PossIn struct {
-	Rels [][]int // per relation, the alternative shapes
-	Arch string  // x, y or z concrete names
+	Rels  [][]int // per relation, the alternative shapes
+	Arch  string  // x, y or z concrete names
+	Names int     `json:",omitempty"` // 0: every alternative has its own name; 1: all share one name; 2: the k-th alternative of every relation is named p<k>
+}
+
+func (in PossIn) nameIdx(n, k int) int {
+	switch in.Names {
+	case 1:
+		return 0
+	case 2:
+		return k
+	}
+	return n
 }
 
 var shapeText = []string{"${v%d}", "p%d", "p%d [amd64]", "p%d [!amd64]", "p%d [i386]", "p%d [amd64 i386]",
@@ -164,8 +176,8 @@ func (in PossIn) text() string {
 	n := 0
 	for _, r := range in.Rels {
 		var alts []string
-		for _, s := range r {
-			alts = append(alts, fmt.Sprintf(shapeText[s], n))
+		for k, s := range r {
+			alts = append(alts, fmt.Sprintf(shapeText[s], in.nameIdx(n, k)))
 			n++
 		}
 		rels = append(rels, strings.Join(alts, " | "))
@@ -188,33 +200,57 @@ func checkPoss(scen string, in PossIn) []*mc.Violation {
 	}
 	arch, _ := dependency.ParseArch(in.Arch)
 	var wantSel, wantAll, wantSub []string
+	var wantSelP, wantAllP, wantSubP []dependency.Possibility // the same, as the parsed alternatives themselves
 	n := 0
-	for _, r := range in.Rels {
+	structured := len(d.Relations) == len(in.Rels)
+	for ri, r := range in.Rels {
 		picked := false
-		for _, s := range r {
+		structured = structured && len(d.Relations[ri].Possibilities) == len(r)
+		for k, s := range r {
+			var alt dependency.Possibility
+			if structured {
+				alt = d.Relations[ri].Possibilities[k]
+			}
 			if s == 0 {
-				wantSub = append(wantSub, fmt.Sprintf("v%d", n))
+				wantSub = append(wantSub, fmt.Sprintf("v%d", in.nameIdx(n, k)))
+				wantSubP = append(wantSubP, alt)
 			} else {
-				nm := fmt.Sprintf("p%d", n)
+				nm := fmt.Sprintf("p%d", in.nameIdx(n, k))
 				wantAll = append(wantAll, nm)
+				wantAllP = append(wantAllP, alt)
 				if !picked && shapeAdmits(s, in.Arch) {
 					wantSel = append(wantSel, nm)
+					wantSelP = append(wantSelP, alt)
 					picked = true
 				}
 			}
 			n++
 		}
 	}
+	same := func(got, want []dependency.Possibility) bool {
+		if !structured {
+			return true // C04's business; the name comparison still applies
+		}
+		if len(got) != len(want) {
+			return false
+		}
+		for i := range got {
+			if !reflect.DeepEqual(got[i], want[i]) {
+				return false
+			}
+		}
+		return true
+	}
 	var out []*mc.Violation
 	if p, msg := mc.Guard(func() {
-		if got := names(d.GetPossibilities(*arch)); got != strings.Join(wantSel, " ") {
-			out = append(out, mc.V(scen, "first-admitted-alternative", in, strings.Join(wantSel, " "), got))
+		if ps := d.GetPossibilities(*arch); names(ps) != strings.Join(wantSel, " ") || !same(ps, wantSelP) {
+			out = append(out, mc.V(scen, "first-admitted-alternative", in, strings.Join(wantSel, " "), fmt.Sprintf("%s (%v)", names(ps), ps)))
 		}
-		if got := names(d.GetAllPossibilities()); got != strings.Join(wantAll, " ") {
-			out = append(out, mc.V(scen, "all-non-substvars", in, strings.Join(wantAll, " "), got))
+		if ps := d.GetAllPossibilities(); names(ps) != strings.Join(wantAll, " ") || !same(ps, wantAllP) {
+			out = append(out, mc.V(scen, "all-non-substvars", in, strings.Join(wantAll, " "), fmt.Sprintf("%s (%v)", names(ps), ps)))
 		}
-		if got := names(d.GetSubstvars()); got != strings.Join(wantSub, " ") {
-			out = append(out, mc.V(scen, "substvars", in, strings.Join(wantSub, " "), got))
+		if ps := d.GetSubstvars(); names(ps) != strings.Join(wantSub, " ") || !same(ps, wantSubP) {
+			out = append(out, mc.V(scen, "substvars", in, strings.Join(wantSub, " "), fmt.Sprintf("%s (%v)", names(ps), ps)))
 		}
 	}); p {
 		out = append(out, mc.V(scen, "selection-returns", in, "no panic", msg))
@@ -419,13 +455,30 @@ func Run(r *mc.Run) {
 			}
 		}
 		for _, a := range archs {
-			try(PossIn{[][]int{rels[i]}, a})
-			for j := range rels {
-				try(PossIn{[][]int{rels[i], rels[j]}, a})
+			for nm := 0; nm < 3; nm++ { // naming: all distinct / all equal / equal across relations
+				try(PossIn{[][]int{rels[i]}, a, nm})
+				for j := range rels {
+					try(PossIn{[][]int{rels[i], rels[j]}, a, nm})
+				}
+			}
+		}
+		if len(rels[i]) <= 2 { // three relations, names repeating
+			for _, a := range archs {
+				for j := range rels {
+					if len(rels[j]) > 2 {
+						continue
+					}
+					for k := range rels {
+						if len(rels[k]) <= 1 {
+							try(PossIn{[][]int{rels[i], rels[j], rels[k]}, a, 1})
+							try(PossIn{[][]int{rels[i], rels[j], rels[k]}, a, 2})
+						}
+					}
+				}
 			}
 		}
 		if st.WantSample() && i%41 == 7 {
-			st.Sample(PossIn{[][]int{rels[i], rels[(i*3)%len(rels)]}, "i386"}.text())
+			st.Sample(PossIn{[][]int{rels[i], rels[(i*3)%len(rels)]}, "i386", i % 3}.text())
 		}
 		return true
 	})
